@@ -429,8 +429,8 @@ def object_walks(ctx):
     inst = 'MCI_object_walks'
     mod = vp.instance_module(inst, 'MC_Object', consts)
     cfg = vp.instance_cfg(consts, {'MaxLen': 10}, ['Consistent', 'Scans', 'BucketsSorted'], spec='OSpec')
-    num, depth = (6, 40) if ctx.quick else (50, 100)
-    r = vp.tlc(f'object_walks_{ctx.tier}', mod, cfg, workers=4, simulate=f'num={num}', depth=depth, timeout=1500)
+    num, depth = (6, 40) if ctx.quick else (40, 60)
+    r = vp.tlc(f'object_walks_{ctx.tier}', mod, cfg, workers=4, simulate=f'num={num}', depth=depth, timeout=1500, heap='16g')
     r['instance'] = f'object_walks_{ctx.tier} (simulation: {num} behaviours of depth {depth})'
     r['invariants'] = ['Consistent', 'Scans', 'BucketsSorted']
     if r['violation']:
@@ -577,7 +577,7 @@ def nav_values(ctx):
     insts = [('deep', {'Keys': '{<<97>>}', 'Leaves': '{VNum(<<49>>)}'}, {'MaxDepth': 3, 'MaxWidth': 2}),
              ('wide', {'Keys': '{<<97>>, <<98>>}', 'Leaves': '{VNum(<<49>>)}'}, {'MaxDepth': 2, 'MaxWidth': 3})]
     if not ctx.quick:
-        insts.append(('mixed', {'Keys': '{<<97>>, <<233>>}', 'Leaves': '{VNull, VStr(<<233, 128512>>)}'}, {'MaxDepth': 3, 'MaxWidth': 2}))
+        insts.append(('mixed', {'Keys': '{<<97>>, <<233>>}', 'Leaves': '{VNull, VStr(<<233, 128512>>), VArr(<<>>), VObj(<<>>)}'}, {'MaxDepth': 2, 'MaxWidth': 2}))
     for name, consts, plain in insts:
         r = ctx.mc(f'navvalues_{name}', 'MC_NavValues', consts, plain, ['Dump', 'ParseOfPrint'], spec='VSpec')
         outs.append(r['out'])
@@ -592,7 +592,7 @@ def c11(ctx):
         consts = {'Keys': '{<<97>>, <<98>>}', 'Leaves': '{VNull, VNum(<<49>>), VBool(TRUE)}'}
     r = ctx.mc(f'conv_{ctx.tier}', 'MC_Conv', consts, {'Depth': 2, 'Width': 2}, ['Dump', 'ErrInRange'], spec='CSpec')
     fi = ctx.mc(f'fragiter_{ctx.tier}', 'MC_FragIter', {'Keys': '{<<97>>}' if ctx.quick else '{<<97>>, <<98>>}', 'Leaves': '{VNull, VNum(<<49>>)}'},
-                {'Depth': 2, 'Width': 2 if ctx.quick else 3}, ['Dump', 'ExactlyOnce', 'Bounded', 'Preorder', 'Volumes'], spec='FSpec')
+                {'Depth': 2, 'Width': 2}, ['Dump', 'ExactlyOnce', 'Bounded', 'Preorder', 'Volumes'], spec='FSpec')
     ctx.replay(files + [r['out'], fi['out']], ['C11.'])
     trace, s = ctx.record('record-nav', 'nav.ndjson', ['--n', 200 if ctx.quick else 4000])
     reasons_trace(ctx, 'nav', 'TraceNav', trace, lambda ev, why: 'C11.trace_' + why,
